@@ -47,6 +47,8 @@ theorem predEval_no_panic (p : Nat) (v : Val) : predEval p v ≠ .panic := by
   · simp
   · simp
   · simp
+  · simp
+  · simp
 
 theorem isType_no_panic (T : Ty) (v : Val) : isType T v ≠ .panic := by
   cases T <;> cases v <;> simp [isType, predEval_no_panic]
@@ -80,6 +82,14 @@ theorem setIndex_no_panic (lhs : Val) (ixs : List Val) (value : Option Val) :
             · exact Out.map_ne_panic _ _ (ih _)
             · simp
           · simp
+    · split
+      · simp
+      · split
+        · simp
+        · split
+          · split <;> simp
+          · simp
+        · simp
     · simp
 
 theorem insert_no_panic (e : Env) (x : Nat) (T : Ty) (v : Val) : (e.insert x T v).2 ≠ .panic := by
